@@ -1,0 +1,11 @@
+//go:build verif
+// +build verif
+
+package route
+
+import dest "github.com/grafana/carbon-relay-ng/destination"
+
+// VerifDests returns the destination slice of the currently published route configuration.
+func (route *baseRoute) VerifDests() []*dest.Destination {
+	return route.config.Load().(Config).Dests()
+}
